@@ -84,235 +84,302 @@ def run(ctx, ck):
     ck.floor('taper fallbacks', n_fb, 1)
 
     # ---------------------------------------------------------------- curves
-    for q in ('mininec.Arc.__init__', 'mininec.Helix.__init__'):
+    # Decided on the symbolic walk of the constructors: on every path the array finally stored in
+    # self.segends is one closed expression  np.array([P(k) for k in range(n_segments)] + [closing]).
+    # P and the closing point are compared as polynomials over role-named atoms (cos(<arg>), abs(..),
+    # mod(..,..) are atoms over the canonical form of their arguments; sin^2 = 1 - cos^2).
+    import re
+    from ..symx import SymExec, copy_replace
+    from ..poly import poly_roles, cancel, reduce_trig, Poly
+    ck.rule('R-SIB.closing-point', 'closing end point of a curve = its loop formula at i = n_segments')
+    ck.rule('R-POLY.on-curve', 'arc / helix end points satisfy the curve equation; angle is linear in the index')
+
+    def curve_points(q):
+        """[(loop point [x,y,z] ASTs or None, index name, iterable text, closing point or None, problems)] per path"""
         g = m.func(q)
-        gfl = ctx.flow(g)
-        ls = [l for l in loops_in(g.node) if isinstance(l, ast.For)]
-        ok = len(ls) == 1 and norm(ls[0].iter) == 'range(n_segments)'
-        cnt = None
-        if ok:
-            cnt = loop_reaches_on_all_paths(gfl, ls[0], lambda n: is_append_to(n, 'segends'))
-            ok = cnt == (1, 1)
-        ck.ob('R-PAIR.one-per-iteration', q, ok, g.loc(ls[0] if ls else None),
-              'one end point per iteration of range(n_segments): %s' % (cnt,))
-        # exactly one append after the loop, then self.segends = np.array(segends)
-        after = []
-        if ls:
-            body = g.body()
-            i = body.index(ls[0])
-            after = body[i + 1:]
-        napp = sum(1 for s in after if isinstance(s, ast.Expr) and isinstance(s.value, ast.Call) and
-                   isinstance(s.value.func, ast.Attribute) and s.value.func.attr == 'append' and
-                   norm(s.value.func.value) == 'segends')
-        fin = assigns_to_attr(g, 'self.segends')
-        init_ok = any(isinstance(s, ast.Assign) and norm(s.targets[0]) == 'segends' and norm(s.value) == '[]'
-                      for s in g.body())
-        ck.ob('R-PAIR.closing-point', q, napp == 1 and len(fin) == 1 and
-              norm(fin[0].value) == 'np.array(segends)' and init_ok, g.loc(),
-              '%d closing point(s) appended after the loop; self.segends = np.array(segends)' % napp)
+        out = []
+        for p_ in SymExec(ctx, g, bind_loops=True, max_paths=5000).run():
+            if p_.end == 'raise':
+                continue
+            fin = [v_ for k_, v_, st_ in p_.stores if k_ == 'self.segends']
+            if not fin:
+                out.append((None, None, None, None, ['self.segends is not assigned on a path']))
+                continue
+            v = fin[-1]
+            probs = []
+            if not (isinstance(v, ast.Call) and (dotted(v.func) or '').endswith('array') and v.args and
+                    isinstance(v.args[0], ast.List)):
+                out.append((None, None, None, None, ['self.segends = %s is not an array of the collected points' % norm(v)[:60]]))
+                continue
+            loop_pts, closing = [], []
+            ent = [t_ for k_, t_ in p_.conds if k_ == 'loop']
+            for pos, x_ in enumerate(v.args[0].elts):
+                it_ = ent[-1] if ent else None
+                if isinstance(x_, ast.Starred) and isinstance(x_.value, ast.Call) and norm(x_.value.func) == '_each':
+                    it_ = norm(x_.value.args[1])
+                    x_ = x_.value.args[0]
+                ks = set(re.findall(r'_k\d+', norm(x_)))
+                if ks:
+                    loop_pts.append((x_, sorted(ks)[0], it_, pos))
+                else:
+                    closing.append((x_, pos))
+            skipped = any(k_ == 'loop-skipped' for k_, t_ in p_.conds)
+            if skipped and not loop_pts:
+                continue            # zero segments: not a curve
+            if len(loop_pts) != 1:
+                probs.append('%d end points per iteration' % len(loop_pts))
+            if len(closing) != 1 or (loop_pts and closing and closing[0][1] < loop_pts[0][3]):
+                probs.append('%d closing point(s) after the loop' % len(closing))
+            lp = loop_pts[0] if loop_pts else (None, None, None, None)
+            out.append((lp[0], lp[1], lp[2], closing[0][0] if closing else None, probs))
+        return g, out
+
+    def coords(pt):
+        if isinstance(pt, (ast.List, ast.Tuple)) and len(pt.elts) == 3:
+            return [cancel(poly_roles(e_, {})) for e_ in pt.elts]
+        raise ValueError('point %s is not [x, y, z]' % norm(pt)[:50])
+
+    def at_index(pt, kname, value_txt):
+        val = ast.parse(value_txt, mode='eval').body
+        return copy_replace(pt, lambda n_: val if isinstance(n_, ast.Name) and n_.id == kname else None)
+
+    def trig_pairs(p_):
+        vs = {v_ for mono in p_.t for v_, e_ in mono}
+        return [(v_, 'sin(' + v_[4:]) for v_ in vs if v_.startswith('cos(')] + \
+               [('cos(' + v_[4:], v_) for v_ in vs if v_.startswith('sin(') and ('cos(' + v_[4:]) not in vs]
+
+    def split_trig(p_):
+        """p = A * trig(arg): (A, 'cos'|'sin', arg text) or None"""
+        tv = {v_ for mono in p_.t for v_, e_ in mono if v_.startswith(('cos(', 'sin('))}
+        if len(tv) != 1:
+            return None
+        t_ = sorted(tv)[0]
+        A = Poly()
+        for mono, coef in p_.t.items():
+            d = dict(mono)
+            if d.get(t_) != 1:
+                return None
+            del d[t_]
+            A = A + Poly({tuple(sorted(d.items())): coef})
+        return cancel(A), t_[:3], t_[4:-1]
+
+    def degree_in(p_, var):
+        return max([dict(mono).get(var, 0) for mono in p_.t] + [0])
+
+    for q in ('mininec.Arc.__init__', 'mininec.Helix.__init__'):
+        g, pts = curve_points(q)
+        ck.floor('paths building the end points in ' + q, len([x_ for x_ in pts if x_[0] is not None]), 1)
+        probs = sorted({p_ for x_ in pts for p_ in x_[4]})
+        its = sorted({x_[2] for x_ in pts if x_[0] is not None})
+        ok = not any('per iteration' in p_ or 'not an array' in p_ or 'not assigned' in p_ for p_ in probs) and \
+            its == ['range(n_segments)']
+        ck.ob('R-PAIR.one-per-iteration', q, ok, g.loc(),
+              'one end point per element of %s' % its if ok else 'end points per iteration: %s over %s' % (probs, its))
+        ok = not any('closing' in p_ for p_ in probs)
+        ck.ob('R-PAIR.closing-point', q, ok, g.loc(), 'one closing point appended after the loop points' if ok else str(probs))
         ns = assigns_to_attr(g, 'self.n_segments')
         ck.ob('R-PAIR.one-per-iteration', q + '|n_segments', len(ns) == 1 and norm(ns[0].value) == 'n_segments',
               g.loc(), 'self.n_segments is the requested count')
-    # closing point == the loop formula evaluated at the end of the curve (i = n_segments):
-    # symbolic substitution of the loop's own statements, compared with the statements after the loop
-    from ..poly import poly_atoms, single_atom, subst_names, Poly
-    for q in ('mininec.Arc.__init__', 'mininec.Helix.__init__'):
-        g = m.func(q)
-        ls = [l for l in loops_in(g.node) if isinstance(l, ast.For)]
-        if len(ls) != 1 or not isinstance(ls[0].target, ast.Name):
+        # closing point == the loop formula evaluated at the end of the curve (i = n_segments)
+        bad = None
+        n_cmp = 0
+        for lp, kname, it_, cl, pr_ in pts:
+            if lp is None or cl is None:
+                continue
+            try:
+                end = coords(at_index(lp, kname, 'n_segments'))
+                clc = coords(cl)
+                n_cmp += 1
+                for ax, (e1, e2) in zip('xyz', zip(end, clc)):
+                    if cancel(e1 - e2).t != {} and bad is None:
+                        bad = 'closing %s is %r, the loop formula at the end of the curve gives %r' % (ax, e2, e1)
+            except ValueError as e_:
+                bad = bad or str(e_)
+        ck.ob('R-SIB.closing-point', q, bad is None and n_cmp > 0, g.loc(),
+              'closing end point = loop formula at i = n_segments (%d paths)' % n_cmp if bad is None else bad)
+        # curve equation, for the loop points and the closing point
+        n_pt = 0
+        for which in ('loop', 'closing'):
+            bad = None
+            for lp, kname, it_, cl, pr_ in pts:
+                pt = lp if which == 'loop' else cl
+                if pt is None:
+                    continue
+                try:
+                    x_, y_, z_ = coords(pt)
+                    n_pt += 1
+                    if q.startswith('mininec.Arc'):
+                        lhs = reduce_trig(x_ * x_ + z_ * z_, trig_pairs(x_ * x_ + z_ * z_))
+                        if cancel(lhs - Poly.var('radius') * Poly.var('radius')).t != {} or y_.t != {}:
+                            bad = bad or 'x^2 + z^2 = %r, y = %r: not on the circle of the given radius in the x-z plane' % (lhs, y_)
+                    else:
+                        sx, sy = split_trig(x_), split_trig(y_)
+                        if sx is None or sy is None or sx[2] != sy[2] or {sx[1], sy[1]} != {'cos', 'sin'}:
+                            bad = bad or 'x = %r, y = %r are not radius * cos / sin of one angle' % (x_, y_)
+                            continue
+                        A, B = sx[0], sy[0]
+                        lhs = x_ * x_ * B * B + y_ * y_ * A * A
+                        if cancel(reduce_trig(lhs, trig_pairs(lhs)) - A * A * B * B).t != {}:
+                            bad = bad or '(x/a)^2 + (y/b)^2 != 1'
+                        if which == 'loop':
+                            # semi-axes interpolate linearly from (rx1, ry1) to (rx2, ry2), z from 0 to |length|
+                            e0 = coords(at_index(lp, kname, '0'))
+                            s0x, s0y = split_trig(e0[0]), split_trig(e0[1])
+                            if s0x is None or s0y is None or cancel(s0x[0] * s0x[0] - Poly.var('rx1') * Poly.var('rx1')).t != {} \
+                               or cancel(s0y[0] * s0y[0] - Poly.var('ry1') * Poly.var('ry1')).t != {}:
+                                bad = bad or 'the helix does not start with the semi-axes (rx1, ry1)'
+                            e1 = coords(at_index(lp, kname, 'n_segments'))
+                            if degree_in(z_, kname) > 1 or e0[2].t != {} or \
+                               cancel(e1[2] - cancel(poly_roles(ast.parse('abs(length)', mode='eval').body, {}))).t != {}:
+                                bad = bad or 'z does not run linearly from 0 to |length|: %r' % z_
+                            if degree_in(A, kname) > 1 or degree_in(B, kname) > 1:
+                                bad = bad or 'semi-axes are not linear in the index'
+                        # angle = handedness * (z mod |turnlen|) / |turnlen| * 2 pi with z of the same point
+                        zt = norm(pt.elts[2])
+                        want = cancel(poly_roles(ast.parse(
+                            'sign(length * turnlen) * ((%s) %% abs(turnlen)) / abs(turnlen) * 2 * pi' % zt, mode='eval').body, {}))
+                        if sx[2] != repr(want):
+                            bad = bad or 'angle is %s, expected handedness * (z mod |turnlen|) / |turnlen| * 2 pi = %r' % (sx[2][:80], want)
+                except (ValueError, ZeroDivisionError) as e_:
+                    bad = bad or 'point not understood: %s' % e_
+            ck.ob('R-POLY.on-curve', '%s|%s' % (q, which), bad is None, g.loc(),
+                  'points satisfy the curve equation on all paths' if bad is None else bad)
+        ck.floor('curve points examined in ' + q, n_pt, 1)
+    # Arc: the angle is linear in the index, from ang1 to ang2 (degrees -> radians)
+    g, pts = curve_points('mininec.Arc.__init__')
+    bad = None
+    for lp, kname, it_, cl, pr_ in pts:
+        if lp is None:
             continue
-        l = ls[0]
-        body = g.body()
-        after = body[body.index(l) + 1:]
-        post = []
-        for st in after:
-            post.append(st)
-            if isinstance(st, ast.Expr) and 'segends.append' in norm(st):
-                break
-        post_targets = {t.id for st in post for n_ in ast.walk(st) if isinstance(n_, ast.Assign)
-                        for t in n_.targets if isinstance(t, ast.Name)}
-        env = {l.target.id: ast.Name(id='n_segments', ctx=ast.Load())}
-        atoms = {}
-
-        def transform(stmts):
-            out = []
-            for st in stmts:
-                if isinstance(st, ast.Assign) and len(st.targets) == 1 and isinstance(st.targets[0], ast.Name):
-                    v = st.targets[0].id
-                    if v not in post_targets:
-                        try:
-                            pv = poly_atoms(st.value, env, atoms)
-                            at = single_atom(pv, atoms)
-                        except Exception:
-                            at = None
-                        env[v] = at if at is not None else subst_names(st.value, env)
-                        continue
-                    out.append(norm(ast.Assign(targets=st.targets, value=subst_names(st.value, env), lineno=0)))
-                elif isinstance(st, ast.If):
-                    out.append('if %s: %s' % (norm(subst_names(st.test, env)), ' ; '.join(transform(st.body))))
-                    if st.orelse:
-                        out.append('else: %s' % ' ; '.join(transform(st.orelse)))
-                else:
-                    out.append(norm(subst_names(st, env)))
-            return out
-        expected = transform(l.body)
-
-        def plain(stmts):
-            out = []
-            for st in stmts:
-                if isinstance(st, ast.If):
-                    out.append('if %s: %s' % (norm(st.test), ' ; '.join(plain(st.body))))
-                    if st.orelse:
-                        out.append('else: %s' % ' ; '.join(plain(st.orelse)))
-                else:
-                    out.append(norm(st))
-            return out
-        actual = plain(post)
-        ok = expected == actual
-        diff = [(e_, a_) for e_, a_ in zip(expected, actual) if e_ != a_]
-        ck.ob('R-SIB.closing-point', q, ok, g.loc(post[0] if post else l),
-              'closing end point = loop formula at i = n_segments (%d statements)' % len(actual) if ok else
-              'closing end point differs from the loop formula at the end of the curve: expected `%s`, found `%s`'
-              % (diff[0] if diff else (expected, actual)))
-    ck.rule('R-SIB.closing-point', 'closing end point of a curve = its loop formula at i = n_segments')
-    # segment ends lie on the specified circle / elliptical helix at uniform angular steps
-    # (polynomial identities with sin^2 = 1 - cos^2; angle linear in the loop index)
-    from ..poly import poly_sym, reduce_trig, cancel
-    ck.rule('R-POLY.on-curve', 'arc / helix end points satisfy the curve equation; angle is linear in the index')
-
-    def trig_resolver(e):
-        if isinstance(e, ast.Call) and len(e.args) == 1 and (dotted(e.func) or '') in ('np.cos', 'np.sin'):
-            return Poly.var(('c:' if e.func.attr == 'cos' else 's:') + norm(e.args[0]))
-        return None
-    # Arc: every appended point [x, y, z]: x^2 + z^2 = radius^2, y = 0
-    g = m.func('mininec.Arc.__init__')
-    pts = [c.args[0] for c in walk_no_nested(g.node) if isinstance(c, ast.Call) and
-           isinstance(c.func, ast.Attribute) and c.func.attr == 'append' and norm(c.func.value) == 'segends'
-           and c.args and isinstance(c.args[0], ast.List) and len(c.args[0].elts) == 3]
-    ck.floor('arc point constructions', len(pts), 2)
-    for i_, pt in enumerate(pts):
         try:
-            x_, y_, z_ = [poly_sym(e_, {}, trig_resolver) for e_ in pt.elts]
-            angs = {v[2:] for mono in (x_ * x_ + z_ * z_).t for v, e_ in mono if v.startswith(('c:', 's:'))}
-            pairs = [('c:' + a_, 's:' + a_) for a_ in angs]
-            lhs = reduce_trig(x_ * x_ + z_ * z_, pairs)
-            ok = cancel(lhs - Poly.var('radius') * Poly.var('radius')).t == {} and y_.t == {}
-            why = 'x^2 + z^2 = radius^2 and y = 0 for point %s' % norm(pt)
-        except ValueError as e_:
-            ok, why = False, str(e_)
-        ck.ob('R-POLY.on-curve', 'mininec.Arc.__init__|point#%d' % i_, ok, g.loc(pt), why)
-    # angle linear in i with step (a2 - a1) / n
-    la = [s_ for l_ in loops_in(g.node) for s_ in l_.body if isinstance(s_, ast.Assign)
-          and isinstance(s_.targets[0], ast.Name) and s_.targets[0].id == 'a']
-    ok = len(la) == 1
-    if ok:
-        from ..dataflow import sum_terms, product_of
-        terms = sum_terms(la[0].value)
-        lin = [t for sg, t in terms if any(isinstance(x_, ast.Name) and x_.id == 'i' for x_ in ast.walk(t))]
-        const = [t for sg, t in terms if t not in lin]
-        ok = len(lin) == 1 and [norm(t) for t in const] == ['a1']
-        if ok:
-            pr = product_of(lin[0])
-            nn, dd = pr.texts()
-            ok = sorted(nn) == ['a2 - a1', 'i'] and dd == ['n_segments'] and pr.coef == 1
-    ck.ob('R-POLY.on-curve', 'mininec.Arc.__init__|uniform-angle', ok, g.loc(la[0] if la else None),
-          'angle = a1 + (a2 - a1) / n_segments * i')
-    # Helix: (x/xm)^2 + (y/ym)^2 = 1 on both branches (length sign), inside the loop and for the closing point
-    g = m.func('mininec.Helix.__init__')
-
-    def helix_points(stmts, rx, ry):
-        out = []
-        cur = {}
-        for st in stmts:
-            if isinstance(st, ast.Assign) and isinstance(st.targets[0], ast.Name) and st.targets[0].id in ('x', 'y'):
-                cur[st.targets[0].id] = st.value
-            elif isinstance(st, ast.If):
-                alt = dict(cur)
-                for s2 in st.body:
-                    if isinstance(s2, ast.Assign) and isinstance(s2.targets[0], ast.Name) and s2.targets[0].id in ('x', 'y'):
-                        alt[s2.targets[0].id] = s2.value
-                out.append((norm(st.test), alt, rx, ry))
-        out.append(('default', cur, rx, ry))
-        return out
-    hl = [l_ for l_ in loops_in(g.node) if isinstance(l_, ast.For)]
-    cases = []
-    if hl:
-        cases += helix_points(hl[0].body, 'xm', 'ym')
-        body = g.body()
-        cases += helix_points(body[body.index(hl[0]) + 1:], 'rx2', 'ry2')
-    ck.floor('helix point cases', len(cases), 4)
-    for i_, (cond, vals, rx, ry) in enumerate(cases):
-        try:
-            x_ = poly_sym(vals['x'], {}, trig_resolver)
-            y_ = poly_sym(vals['y'], {}, trig_resolver)
-            RX, RY = Poly.var(rx), Poly.var(ry)
-            lhs = x_ * x_ * RY * RY + y_ * y_ * RX * RX
-            angs = {v[2:] for mono in lhs.t for v, e_ in mono if v.startswith(('c:', 's:'))}
-            pairs = [('c:' + a_, 's:' + a_) for a_ in angs]
-            ok = cancel(reduce_trig(lhs, pairs) - RX * RX * RY * RY).t == {}
-            why = '(x/%s)^2 + (y/%s)^2 = 1 on branch `%s`' % (rx, ry, cond)
-        except (ValueError, KeyError) as e_:
-            ok, why = False, 'point not understood: %s' % e_
-        ck.ob('R-POLY.on-curve', 'mininec.Helix.__init__|%s|%s' % ('loop' if rx == 'xm' else 'closing', cond), ok, g.loc(), why)
+            x_ = coords(lp)[0]
+            sx = split_trig(x_)
+            x0 = split_trig(coords(at_index(lp, kname, '0'))[0])
+            x1 = split_trig(coords(at_index(lp, kname, 'n_segments'))[0])
+            a0 = repr(cancel(poly_roles(ast.parse('ang1 / 180 * pi', mode='eval').body, {})))
+            a1 = repr(cancel(poly_roles(ast.parse('ang2 / 180 * pi', mode='eval').body, {})))
+            if sx is None or x0 is None or x1 is None or x0[2] != a0 or x1[2] != a1:
+                bad = bad or 'angle runs from %s to %s, not from ang1 to ang2 (radians)' % (x0 and x0[2], x1 and x1[2])
+            # linear in the index: the argument polynomial has degree <= 1 in k
+            arg = None
+            for n_ in ast.walk(lp):
+                if isinstance(n_, ast.Call) and (dotted(n_.func) or '').endswith('cos') and n_.args:
+                    arg = cancel(poly_roles(n_.args[0], {}))
+            if arg is None or degree_in(arg, kname) != 1:
+                bad = bad or 'angle is not linear in the index: %r' % arg
+        except (ValueError, ZeroDivisionError) as e_:
+            bad = bad or str(e_)
+    ck.ob('R-POLY.on-curve', 'mininec.Arc.__init__|uniform-angle', bad is None, g.loc(),
+          'angle = a1 + (a2 - a1) / n_segments * i' if bad is None else bad)
     cc = m.func('mininec.Curve.compute_segments')
     cfl2 = ctx.flow(cc)
-    ls = [l for l in loops_in(cc.node) if isinstance(l, ast.For)]
-    ok = len(ls) == 1 and norm(ls[0].iter) == 'pairwise(self.segends)'
-    cnt = None
-    if ok:
-        cnt = loop_reaches_on_all_paths(cfl2, ls[0], lambda n: is_append_to(n, 'self.segments'))
-        ok = cnt == (1, 1)
-        call = [c for c in walk_no_nested(ls[0]) if isinstance(c, ast.Call) and isinstance(c.func, ast.Name)
-                and c.func.id == 'Segment']
-        t = ls[0].target
-        ok = ok and len(call) == 1 and isinstance(t, ast.Tuple) and \
-            [norm(a) for a in call[0].args[:2]] == [norm(e) for e in t.elts]
-    ck.ob('R-PAIR.one-per-iteration', cc.qual, ok, cc.loc(), 'one segment per consecutive pair of end points: %s' % (cnt,))
+    curve_pending = True
     n_upd, bad, n_plain = first_touch_is_plain_assign(cfl2, 'self.segments')
     ck.ob('R-FRESH.segments', cc.qual, n_upd >= 1 and not bad and n_plain >= 1, cc.loc(),
           'self.segments reset before the appends')
 
     # ---------------------------------------------------------------- tapers
+    # the generating loop as a state transformer: one pair per iteration, every pair starts at the
+    # running point p, ends at p + inc (which becomes the next p) or, in the last iteration, at p2
+    from ..symx import loop_transformer
+    from ._creation import aeval as small_eval, Undecidable
+
+    def holds(conds, env):
+        """do the tests that only involve the loop index and n hold for this iteration?"""
+        for t_, b_ in conds:
+            if not isinstance(b_, bool):
+                continue
+            try:
+                v_ = small_eval(ast.parse(t_, mode='eval').body, env)
+            except (Undecidable, SyntaxError, KeyError, TypeError):
+                continue
+            if bool(v_) != b_:
+                return False
+        return True
     for q in ('taper.taper1', 'taper.taper2'):
         g = m.func(q)
-        gfl = ctx.flow(g)
-        ls = [l for l in loops_in(g.node) if isinstance(l, ast.For) and norm(l.iter) == 'range(n)'
-              and any(isinstance(x, ast.Yield) for x in ast.walk(l))]
+        ls = [l for l in g.body() if isinstance(l, ast.For) and any(isinstance(x, ast.Yield) for x in ast.walk(l))]
         ck.floor('yielding loops in ' + q, len(ls), 1)
         l = ls[-1]
-        cnt = loop_reaches_on_all_paths(gfl, l, has_yield)
-        ck.ob('R-PAIR.one-per-iteration', q, cnt == (1, 1), g.loc(l),
-              'exactly one pair yielded per iteration of range(n): %s' % (cnt,))
-        ys = [y for y in ast.walk(l) if isinstance(y, ast.Yield)]
-        lv = l.target.id if isinstance(l.target, ast.Name) else '?'
-        # last pair ends at p2; others at p + inc; then p = p + inc
-        last = [y for y in ys if isinstance(y.value, ast.Tuple) and norm(y.value.elts[1]) == 'p2']
-        other = [y for y in ys if y not in last]
-        step = [s for s in l.body if isinstance(s, ast.Assign) and norm(s.targets[0]) == 'p']
-        ok = len(last) == 1 and len(other) == 1 and len(step) == 1 and \
-            norm(other[0].value.elts[1]) == norm(step[0].value) and \
-            all(norm(y.value.elts[0]) == 'p' for y in ys)
-        if ok:
-            # the p2 branch is taken exactly for i == n-1
-            p = parent(parent(last[0]))
-            ok = isinstance(p, ast.If) and norm(p.test) in ('%s == n - 1' % lv, 'i == n - 1')
-        # start point p = p1 before the loop
-        body_ids = gfl.cfg.loops[gfl.cfg.node_of(l)][0]
-        d = [x for x in gfl.def_exprs('p', gfl.cfg.node_of(l)) if x[0] == 'assign' and x[2] not in body_ids]
-        ok = ok and [norm(x[1]) for x in d] == ['p1']
-        ck.ob('R-PAIR.chain', q, ok, g.loc(l), 'pairs (p, p+inc) chain from p1; the last pair is (p, p2)')
-    for q, gen in (('mininec.Wire.compute_taper1_segments', 'taper1'),
-                   ('mininec.Wire.compute_taper2_segments', 'taper2')):
+        lv = l.target.id if isinstance(l.target, ast.Name) else None
+        ok_iter = norm(l.iter) == 'range(n)' and lv is not None
+        pre, carried, bpaths, post = loop_transformer(ctx, g, l)
+        bpaths = [p_ for p_ in bpaths if p_.end != 'raise']
+        counts = sorted({sum(1 for ev in p_.events if ev[0] in ('yield', 'yield-from')) for p_ in bpaths})
+        ck.ob('R-PAIR.one-per-iteration', q, ok_iter and counts == [1], g.loc(l),
+              'exactly one pair yielded per iteration of range(n): %s' % counts)
+        bad = None
+        n_last = n_mid = 0
+        N = 6
+        for iv, last in ((0, False), (2, False), (N - 2, False), (N - 1, True)):
+            env_ = {lv: iv, 'n': N}
+            for p_ in bpaths:
+                if not holds(p_.conds, env_):
+                    continue
+                ys = [ev for ev in p_.events if ev[0] == 'yield']
+                if len(ys) != 1 or not isinstance(ys[0][1], ast.Tuple) or len(ys[0][1].elts) != 2:
+                    bad = bad or 'iteration %d of %d yields %s' % (iv, N, [norm(y_[1]) for y_ in ys])
+                    continue
+                a_, b_ = ys[0][1].elts
+                run_pt = [c_ for c_ in carried if norm(a_) == c_]
+                if len(run_pt) != 1:
+                    bad = bad or 'the pair does not start at the running point: %s' % norm(a_)
+                    continue
+                P = run_pt[0]
+                if last:
+                    n_last += 1
+                    if norm(b_) != 'p2':
+                        bad = bad or 'the last pair ends at %s, not at p2' % norm(b_)
+                else:
+                    n_mid += 1
+                    nxt = p_.env.get(P)
+                    if nxt is None or norm(nxt) != norm(b_):
+                        bad = bad or 'pair ends at %s but the next pair starts at %s' % (norm(b_)[:50], norm(nxt)[:50] if nxt is not None else P)
+                if P not in pre or norm(pre[P]) != 'p1':
+                    bad = bad or 'the first pair starts at %s, not at p1' % (norm(pre[P]) if P in pre else '?')
+        ck.ob('R-PAIR.chain', q, bad is None and n_last >= 1 and n_mid >= 1, g.loc(l),
+              'pairs (p, p+inc) chain from p1; the last pair is (p, p2)' if bad is None else bad)
+    # segment producers: one Segment per generated pair / consecutive end points, appended once, indexed by
+    # the number of segments so far
+    def one_segment_per_element(q, want_iter, want_ends):
         g = m.func(q)
-        gfl = ctx.flow(g)
-        ls = [l for l in loops_in(g.node) if isinstance(l, ast.For)]
-        ok = len(ls) == 1 and isinstance(ls[0].iter, ast.Call) and norm(ls[0].iter.func) == gen
-        cnt = None
-        if ok:
-            cnt = loop_reaches_on_all_paths(gfl, ls[0], lambda n: is_append_to(n, 'self.segments'))
-            args = [norm(a) for a in ls[0].iter.args]
-            ok = cnt == (1, 1) and args == ['self.p1', 'self.p2', 'self.n_segments', 'self.r']
-        ck.ob('R-PAIR.one-per-iteration', q, ok, g.loc(), 'one segment per generated pair of %s(p1, p2, n, r): %s' % (gen, cnt))
+        from ..symx import SymExec
+        paths = [p_ for p_ in SymExec(ctx, g, bind_loops=True, objects=True, effects=True, max_paths=2000).run()
+                 if p_.end != 'raise']
+        bad = None
+        n_ent = 0
+        for p_ in paths:
+            ent = [t_ for k_, t_ in p_.conds if k_ == 'loop']
+            cre = [ev for ev in p_.events if ev[0] == 'create' and norm(ev[2].func) == 'Segment']
+            if not ent:
+                if cre:
+                    bad = bad or 'a segment is created outside the loop'
+                continue
+            n_ent += 1
+            it_ = re.sub(r'_k\d+', '_k', ent[-1])
+            if not re.match(want_iter, it_):
+                bad = bad or 'iterates %s' % it_
+            if len(cre) != 1:
+                bad = bad or '%d segments per element' % len(cre)
+                continue
+            tok, call = cre[0][1], cre[0][2]
+            apps = [ev for ev in p_.events if ev[0] == 'call' and isinstance(ev[1].func, ast.Attribute) and
+                    ev[1].func.attr == 'append' and norm(ev[1].func.value) == 'self.segments' and
+                    [norm(a_) for a_ in ev[1].args] == [tok]]
+            if len(apps) != 1:
+                bad = bad or 'the segment is appended %d times' % len(apps)
+            ends = [re.sub(r'_k\d+', '_k', norm(a_)) for a_ in call.args[:2]]
+            if want_ends is not None and not all(re.match(w_, e_) for w_, e_ in zip(want_ends, ends)):
+                bad = bad or 'segment ends are %s' % ends
+            if len(call.args) >= 3 and norm(call.args[2]) != 'self':
+                bad = bad or 'segment owner is %s' % norm(call.args[2])
+        ck.ob('R-PAIR.one-per-iteration', q, bad is None and n_ent >= 1, g.loc(),
+              'one segment per element of the generated end points, appended once' if bad is None else bad)
+    GEN = r'^taper%d\(self\.p1, self\.p2, self\.n_segments, self\.r(, .*)?\)$'
+    one_segment_per_element('mininec.Wire.compute_taper1_segments', GEN % 1, [r'.*\[_k\]\[0\]$', r'.*\[_k\]\[1\]$'])
+    one_segment_per_element('mininec.Wire.compute_taper2_segments', GEN % 2, [r'.*\[_k\]\[0\]$', r'.*\[_k\]\[1\]$'])
+    one_segment_per_element('mininec.Curve.compute_segments', r'^(enumerate\()?pairwise\(self\.segends\)\)?$',
+                            [r'.*pairwise\(self\.segends\)\[_k\]\[0\]$', r'.*pairwise\(self\.segends\)\[_k\]\[1\]$'])
 
     # ---------------------------------------------------------------- D2 mirror
     t1 = m.func('taper.taper1')
@@ -342,13 +409,31 @@ def run(ctx, ck):
 
     # ---------------------------------------------------------------- D3
     n = 0
+    from ..symx import SymExec
     for cls in ('Wire', 'Curve'):
         for op in ('rotate', 'translate', 'scale'):
             g = m.func('mininec.%s.%s' % (cls, op))
-            b = g.body()
-            ok = bool(b) and isinstance(b[0], ast.Assert) and 'segments' in norm(b[0].test) and \
-                norm(b[0].test).startswith('not ')
-            ck.ob('R-ASSERT.not-segmented', g.qual, ok, g.loc(), 'first statement: %s' % (norm(b[0]) if b else '?'))
+            # on every path the object is asserted to be unsegmented before its geometry is touched
+            bad = None
+            npaths = 0
+            for p_ in SymExec(ctx, g, effects=True, max_paths=2000).run():
+                if p_.end == 'raise':
+                    continue
+                npaths += 1
+                first_store = None
+                guard = None
+                for i_, ev in enumerate(p_.events):
+                    if ev[0] == 'store' and ev[1].startswith('self.') and first_store is None:
+                        first_store = i_
+                    if ev[0] == 'assert' and guard is None and any(
+                            'segments' in t_ and b_ is False for t_, b_ in ev[1]):
+                        guard = i_
+                if guard is None:
+                    bad = bad or 'no assertion that the object is unsegmented'
+                elif first_store is not None and first_store < guard:
+                    bad = bad or 'geometry is changed before the assertion'
+            ck.ob('R-ASSERT.not-segmented', g.qual, bad is None and npaths > 0, g.loc(),
+                  'asserts `not segments` before touching the geometry (%d paths)' % npaths if bad is None else bad)
             n += 1
     ck.floor('transformation methods', n, 6)
     ck.undecided += ['growth ratio <= 2.1 and min/max segment limits of tapers', 'points on the circle / helix',
